@@ -184,8 +184,11 @@ def run(rep: Report, ctx: Any) -> str:
         #     printed has passed the reserved-word renaming and nothing that can undo it since
         if affix_excludes_keywords(pre, suf):
             continue
+        labels = frozenset(l for e in es for l in e.labels)
+        if labels <= {CONST, ENUM, NUM}:
+            continue  # the repository's own text, the same for every document: no name the document chooses is printed here
         n_bare += 1
-        why = safety.reason(tname, macro, node, frozenset(l for e in es for l in e.labels))
+        why = safety.reason(tname, macro, node, labels)
         rep.check(why is None, "R09.2", f"{tname}::{macro}::{et}#{ordinal}@{kind}::not-keyword",
                   f"the {kind} position of the generated code can receive a Python keyword: {why}; only the name constructors rename "
                   "reserved words, and a keyword at this position makes the generated module a syntax error",
@@ -442,6 +445,24 @@ def member_table_fields(ix: Any, f: Any) -> set[str]:
     return out
 
 
+def _without_grouping_parentheses(text: str) -> str:
+    """the canonical text of a template expression without the parentheses that only group (a `set` variable reads as its
+    parenthesised definition); the parentheses of a call stay"""
+    out: list[str] = []
+    stack: list[bool] = []
+    for i, c in enumerate(text):
+        if c == "(":
+            is_call = i > 0 and (text[i - 1].isalnum() or text[i - 1] in "_])")
+            stack.append(is_call)
+            if not is_call:
+                continue
+        elif c == ")" and stack:
+            if not stack.pop():
+                continue
+        out.append(c)
+    return "".join(out)
+
+
 _STR_METHOD_OF_FILTER = {"upper": "upper", "lower": "lower", "capitalize": "capitalize", "title": "title"}
 _UNCHANGED_BY_FILTER = {"string", "safe", "trim"}  # filters of jinja2 that hand an identifier (no white space in it) on as it is
 
@@ -556,6 +577,8 @@ class KeywordSafety:
 
             if affix_excludes_keywords(lit(parts[0]), lit(parts[-1])):
                 return None
+            if any(isinstance(x, nodes.Const) and isinstance(x.value, str) and re.search(r"\W", x.value) for x in parts):
+                return None  # the text written here contains a delimiter of its own: it is not one name token
             return f"`{expr_text(n)[:70]}` puts the name together from parts, none of them a literal affix that no keyword has"
         if isinstance(n, nodes.Name):
             defs = self.sets_of(tname).get(n.name, [])
@@ -589,7 +612,7 @@ class KeywordSafety:
     def leaf(self, n: Any, labels: frozenset[str]) -> "str | None":
         if WORD not in labels:
             return None  # constructor results, constants of the repository, numbers (anything else is reported by the clause on material)
-        text = expr_text(n)
+        text = _without_grouping_parentheses(expr_text(n))
         fields = "|".join(sorted(re.escape(x) for x in self.member_fields))
         keys = rf"(?:\.items\(\)\[\*\]\.0|\.keys\(\)\[\*\]|\[\*\]|\|dictsort(?:\([^()]*\))?\[\*\]\.0)"
         if fields and re.fullmatch(rf"[\w.\[\]*]+\.(?:{fields}){keys}", text):
